@@ -1,5 +1,4 @@
-import Pcore.Proofs.Quote
-import Pcore.Proofs.Parse
+import Pcore.Proofs.ValueRT
 /-!
 # C05 — Printing and parsing are inverse for types and literal values
 
@@ -23,7 +22,15 @@ Full statement / proved / missing
 * layer 1, integers  — `C05_int`: `ParseInt(FormatInt(i), 0, 64) = i` for every Int64, including ±2^63 boundaries.
 * floats             — not proved: decimal conversion is a parameter (`Env.pf`); the driver uses an exact decimal →
                        binary64 reader that agrees with `strconv.ParseFloat` on every float the harness generated.
-* layers 2–4         — see the end of this file.
+* layers 2–3, values — `C05_value_roundtrip`: for EVERY literal value built from undef, default, booleans, Int64
+                       integers, strings of arbitrary content, representable regexps, floats (under the `FloatIO`
+                       hypothesis carried by `Lit`), arrays and hashes of any size and nesting, parsing the
+                       program-format text gives exactly that value back — through the real lexer model and the
+                       recursive descent parser model, with the fuel `parseFile` supplies.
+                       Missing from the value statement: types as values and object instances (constructor-call forms
+                       `My::T('a' => 1)` need `ResolveDeferred`/`px.New`, which are not modelled) — checked on the
+                       implementation only (direct predicate `rt-val` with types, objects, Binary, SemVer, URI).
+* layer 4, types     — see the end of this file.
 -/
 namespace Pcore.Syntax
 
@@ -78,5 +85,32 @@ theorem C05_int (i : Int) (hlo : -(int64Bound : Int) ≤ i) (hhi : i < (int64Bou
 
 example : parseInt (intText (-9223372036854775808)) = some (-9223372036854775808) := C05_int _ (by decide) (by decide)
 example : parseInt (intText 9223372036854775807) = some 9223372036854775807 := C05_int _ (by decide) (by decide)
+
+/-- **literal values**: `parse (printVal v) = v` for every literal value of the modelled kinds.  `Lit env v` says: integers
+    are Int64; each regexp source is representable and compiles (`env.rxOK`); each float leaf `(bits, text)` satisfies the
+    float parameter (`text` lexes as one float token and `env.pf text = bits`).  Strings are unconstrained. -/
+theorem C05_value_roundtrip (env : Env) (v : Val) (hv : Lit env v) :
+    parse env (syms (printVal v)) = .value (exprOf v) :=
+  value_rt env v hv
+
+/-- an oracle for examples: ASCII letters, every regexp compiles, no float reader -/
+def envEx : Env := { isLetter := fun c => isUpper c || isLower c, rxOK := fun _ => true, pf := fun _ => none }
+
+/-- non-vacuity: a nested value with hostile strings, boundary integers, a regexp, an empty array and an empty hash -/
+def sampleVal : Val :=
+  .hash [(.str ['\'', '\\'], .arr [.int (-9223372036854775808), .undef, .arr [], .hash []]),
+         (.regexp ['\\', 'd', '+', '/'], .str ['a', '\n', '$', runeError]), (.int 9223372036854775807, .bool true), (.dflt, .bool false)]
+example : Lit envEx sampleVal := by
+  simp only [sampleVal, Lit, LitE, LitL, envEx]
+  decide
+example : parse envEx (syms (printVal sampleVal)) = .value (exprOf sampleVal) :=
+  C05_value_roundtrip envEx sampleVal (by simp only [sampleVal, Lit, LitE, LitL, envEx]; decide)
+
+/-- non-vacuity of the float parameter: for `D+.D+` texts the lexing half is a theorem; the conversion half is whatever
+    `env.pf` is (the driver uses the exact reader `parseFloat`, e.g. `parseFloat "1.5" = 0x3FF8000000000000`) -/
+example (env : Env) (h : env.pf ['1', '.', '5'] = some 4609434218613702656) :
+    Lit env (.arr [.float 4609434218613702656 ['1', '.', '5']]) := by
+  simp only [Lit, LitL, and_true]
+  exact ⟨fun k hk => nextToken_simple_float env.isLetter '1' [] '5' [] k (by decide) (by simp) (by decide) (by simp) hk, h⟩
 
 end Pcore.Syntax
